@@ -279,6 +279,8 @@ class Evaluator:
                     return m_
             if isinstance(base, Obj) and not hasattr(base, n.attr) and getattr(base, '_cls', None) is not None:
                 m_ = self._obj_method(base, n.attr)
+                if isinstance(m_, tuple) and m_ and m_[0] == 'property-value':
+                    return m_[1]
                 if m_ is not None:
                     return m_
             if isinstance(base, ClsRef) and n.attr == '__name__':
@@ -506,6 +508,8 @@ class Evaluator:
         fn = MiniFunc(sub, m.node, {}, m.short)
         if any(isinstance(d, ast.Name) and d.id == 'staticmethod' for d in m.node.decorator_list):
             return fn
+        if any(isinstance(d, ast.Name) and d.id == 'property' for d in m.node.decorator_list):
+            return ('property-value', fn(obj))
         return lambda *a, **k: fn(obj, *a, **k)
 
     def _method_of(self, tok, name):
@@ -619,6 +623,9 @@ class Evaluator:
                 if f.id == 'iter':
                     return iter(args[0])
                 if f.id == 'next':
+                    if args and isinstance(args[0], list):
+                        # the (eagerly evaluated) result of a generator function that has just been called: a fresh iterator
+                        args = [iter(args[0])] + list(args[1:])
                     try:
                         return next(*args)
                     except StopIteration:
@@ -666,6 +673,21 @@ class Evaluator:
             if f.id == 'enumerate' and len(args) in (1, 2):
                 a0_ = self._iterate(args[0], n)
                 return enumerate(a0_, *args[1:])
+            if f.id == 'map' and len(args) == 2:
+                fn_ = args[0]
+                seq_ = self._iterate(args[1], n)
+                if fn_ is str:
+                    out_ = []
+                    for x_ in seq_:
+                        if isinstance(x_, AbsToken):
+                            m_ = self._method_of(x_, '__str__')
+                            out_.append(m_() if m_ is not None else x_.value)
+                        else:
+                            out_.append(str(x_))
+                    return out_
+                if isinstance(fn_, MiniFunc) or callable(fn_):
+                    return [fn_(x_) for x_ in seq_]
+                raise Unsupported('map function')
             if f.id in ('frozenset', 'set') and len(args) <= 1:
                 try:
                     return frozenset(self._iterate(args[0], n)) if args else frozenset()
@@ -915,6 +937,45 @@ def run_function(ev, fnode, env, max_steps=200):
                     block(s.finalbody, env)
             elif isinstance(s, ast.Pass):
                 pass
+            elif isinstance(s, ast.With) and getattr(ev, 'effects', False):
+                # `with cm(args):` for a @contextmanager generator function of the analysed source with one top-level `yield`:
+                # the statements in front of the yield, the body, the statements behind it (what happens when the body raises is
+                # whatever the function does there: no try/finally -> the tail is skipped, as in the source)
+                posts = []
+                for item in s.items:
+                    c_ = item.context_expr
+                    fn_ = None
+                    if isinstance(c_, ast.Call) and isinstance(c_.func, ast.Name):
+                        try:
+                            fv_ = ev.ev(c_.func, env)
+                        except (Unsupported, Unknown):
+                            fv_ = None
+                        if isinstance(fv_, MiniFunc) and any((isinstance(d_, ast.Name) and d_.id == 'contextmanager') or
+                                                             (isinstance(d_, ast.Attribute) and d_.attr == 'contextmanager') for d_ in fv_.node.decorator_list):
+                            fn_ = fv_
+                    if fn_ is None:
+                        raise Unsupported(f'with {src(c_)[:40]}')
+                    ys_ = [i_ for i_, b_ in enumerate(fn_.node.body) if isinstance(b_, ast.Expr) and isinstance(b_.value, ast.Yield)]
+                    if len(ys_) != 1 or _is_generator(ast.FunctionDef(name='x', body=[b_ for i_, b_ in enumerate(fn_.node.body) if i_ != ys_[0]], args=fn_.node.args, decorator_list=[])):
+                        raise Unsupported('context manager shape')
+                    a_, kw_ = ev._args(c_, env)
+                    pre_ = ast.FunctionDef(name=fn_.node.name, args=fn_.node.args, body=fn_.node.body[:ys_[0]] + [ast.Return(value=ast.Call(func=ast.Name(id='locals', ctx=ast.Load()), args=[], keywords=[]))], decorator_list=[])
+                    # run the head in its own environment and keep that environment for the tail
+                    cenv_ = {}
+                    params_ = [x.arg for x in fn_.node.args.posonlyargs + fn_.node.args.args]
+                    for p__, v__ in zip(params_, a_):
+                        cenv_[p__] = v__
+                    cenv_.update(kw_)
+                    for p__, d__ in zip(params_[len(params_) - len(fn_.node.args.defaults):], fn_.node.args.defaults):
+                        cenv_.setdefault(p__, fn_.ev.ev(d__, {}))
+                    run_function(fn_.ev, ast.FunctionDef(name='head', args=None, body=fn_.node.body[:ys_[0]] or [ast.Pass()], decorator_list=[]), cenv_)
+                    if item.optional_vars is not None:
+                        assign(item.optional_vars, fn_.ev.ev(fn_.node.body[ys_[0]].value.value, cenv_) if fn_.node.body[ys_[0]].value.value is not None else None, env)
+                    posts.append((fn_, fn_.node.body[ys_[0] + 1:], cenv_))
+                block(s.body, env)
+                for fn_, tail_, cenv_ in reversed(posts):
+                    if tail_:
+                        run_function(fn_.ev, ast.FunctionDef(name='tail', args=None, body=tail_, decorator_list=[]), cenv_)
             elif isinstance(s, ast.Delete) and getattr(ev, 'effects', False) and all(isinstance(t_, ast.Subscript) for t_ in s.targets):
                 for t_ in s.targets:
                     base_ = ev.ev(t_.value, env)
@@ -955,8 +1016,8 @@ def run_function(ev, fnode, env, max_steps=200):
             elif isinstance(s, ast.Expr) and isinstance(s.value, ast.Call):
                 # a call for its value only (no effects requested): evaluate, ignore
                 ev.ev(s.value, env)
-            elif isinstance(s, ast.Expr) and isinstance(s.value, (ast.ListComp, ast.GeneratorExp, ast.SetComp)) and getattr(ev, 'effects', False):
-                # `[self.process(g) for g in ...]` used as a loop
+            elif isinstance(s, ast.Expr) and isinstance(s.value, (ast.ListComp, ast.GeneratorExp, ast.SetComp, ast.IfExp, ast.BoolOp)) and getattr(ev, 'effects', False):
+                # `[self.process(g) for g in ...]` used as a loop; `f(x) if c else None` used as a statement
                 ev.ev(s.value, env)
             else:
                 raise Unsupported(f'statement {type(s).__name__}: {src(s)[:40]}')
